@@ -508,6 +508,7 @@ def load_known(prop):
     return out
 
 
+@vflib.serialized("run_sqlite")
 def run_sqlite(tier, seed, corpus=None, histories=None, tag="main"):
     """generate, K-sql, O-C02 on libsqlite3 (both pragmas), K-eng. Cached per (tree hash, tier, seed).
     returns dict(rows, d, per_shard, idx_map, ksql, failures {(fk,row idx): failure}, keng, meta, error?)"""
@@ -971,6 +972,36 @@ def plan_effects(plan):
     return tmap, cmap, retyped, added, fills, touched
 
 
+PLAIN_LITERAL = re.compile(r"^\s*(?:'(?:[^']|'')*'|-?\d+(?:\.\d+)?)\s*$")
+
+
+def expected_backfill(col, fill_with):
+    """what the existing rows of a table must hold in a column added through the SQLite rebuild path (NOT NULL or enum column):
+    the fill_with value when the action carries one, else the column default, else NULL (add_column.rs:69-78).  Only judged when
+    that text is a plain literal (quoted string or number); the value is obtained by letting SQLite store the literal in a
+    column of the declared type.  Returns (True, canonical value) or (False, None) when not judged."""
+    if col["nullable"] and not is_enum(col["type"]):
+        return False, None                      # ALTER TABLE ADD COLUMN path: SQLite itself supplies the default
+    src = fill_with if (fill_with is not None and str(fill_with).strip() != "") else (
+        default_to_sql(col["default"]) if col.get("default") is not None else None)
+    if src is None:
+        return True, None
+    if not PLAIN_LITERAL.match(str(src)):
+        return False, None
+    ty = render_type(col["type"])
+    if ty is None:
+        return False, None
+    try:
+        c = sqlite3.connect(":memory:")
+        c.execute('CREATE TABLE x ("v" %s)' % ty)
+        c.execute("INSERT INTO x SELECT %s" % src)
+        v = c.execute("SELECT v FROM x").fetchone()[0]
+        c.close()
+    except sqlite3.Error:
+        return False, None
+    return True, canon(v)
+
+
 def compare_rows(pre, post, plan):
     """C05's row clauses. Returns list of differences (empty = holds)."""
     tmap, cmap, retyped, added, fills, touched = plan_effects(plan)
@@ -1001,6 +1032,13 @@ def compare_rows(pre, post, plan):
                 vals = [r[pcols.index(cn)] for r in prows]
                 if any(v is None for v in vals):
                     d.append("table %s: new NOT NULL column %s holds NULL" % (pt, cn))
+            # the value the existing rows receive: fill_with first, then the default, then NULL
+            if cn in pcols and rows and cn not in retyped[t] and len(prows) == len(rows):
+                judged, exp = expected_backfill(act["column"], act.get("fill_with"))
+                vals = [r[pcols.index(cn)] for r in prows]
+                if judged and any(v != exp for v in vals):
+                    d.append("table %s: existing rows hold %s in the new column %s; the action's %s says %r" % (
+                        pt, sorted(set(map(str, vals)))[:3], cn, "fill_with" if act.get("fill_with") else "default", exp))
         # removed enum labels are rewritten as mapped
         for pc, mp in fills[t].items():
             if pc in cols and cmap[t].get(pc, pc) in pcols:
